@@ -104,6 +104,15 @@ class FuzzRun:
             self.violate('C13/isolation-not-permanent', f'{puppet.nick} goes ISOLATED -> {new} at vt={self.vt()}')
         if new == 'CHECKING':
             rec['checking_seq'] = l2.sequence
+        elif new == 'STOPPED' and old == 'CHECKING':
+            # every handshake of this CHECKING phase said 'isolated' or 'inconsistent': the peer must be ISOLATED
+            since = [h for h in puppet.handshakes if h['seq'] > rec['checking_seq']]
+            self.count('handshakes_given_up')
+            if since and all(h['expected'] in ('NOT_AUTHORIZED', 'INCONSISTENT') for h in since):
+                self.violate('C13/refused-peer-not-isolated',
+                             f'{puppet.nick} goes CHECKING -> STOPPED at vt={self.vt()} although every handshake of this '
+                             f"CHECKING phase was refused ({[(h['seq'], h['expected']) for h in since]}): it must be "
+                             f'ISOLATED')
         elif new == 'ISOLATED':
             rec['isolated_seq'] = l2.sequence
             rec['isolated_t'] = l2.world.now
